@@ -192,9 +192,15 @@ def judgeAsk (line impl : String) : String :=
   | [] =>
     -- the actor must not sit in the select of a reply whose asker has already returned
     let status := ltoks.getD 1 ""
+    let srv := ((kv ltoks "srv").splitOn ",").filterMap (·.toNat?)
     match status.splitOn "/" with
     | [as, act] =>
-      if act.startsWith "b" then
+      -- a reply that the actor has delivered (Reply returned) must have reached its asker, unless that asker is a
+      -- short-timeout one (which may be parked between its timer and its return)
+      let lost := srv.filter fun k =>
+        as.toList.getD k '-' == 'w' && (match items[k]? with | some (_, _, true) => false | _ => true)
+      if !lost.isEmpty then s!"violation Reply returned for request {lost.headD 0} but its asker never received the value"
+      else if act.startsWith "b" then
         let k := ((act.drop 1).toString.toNat?).getD 0
         let c := as.toList.getD k '-'
         if c == 'T' || c == 'V' then s!"violation the actor is blocked in Reply although asker {k} has returned"
